@@ -28,18 +28,48 @@ def num(x):
     return fj(x)
 
 
-def build(case):
+def feats_form(chars, form):
+    """feature collections in every form the constructors accept"""
+    if form == "list":
+        return list(chars)
+    if form == "str":
+        return "".join(chars)
+    return tuple(chars)
+
+
+def pad_grid(rows, pad):
+    """GridMDP / HeavenOrHell strip every row and drop surrounding blank lines"""
+    if not pad:
+        return "\n".join(rows)
+    return "\n\n" + "\n".join("        " + r + "  " for r in rows) + "\n    \n"
+
+
+def build(case, decoy=False):
+    from fractions import Fraction as _F
+    ints = case.get("ints", False)
+
+    def fl(s):          # shadows build.fl: integral parameters as python ints when the case asks for it
+        f = _F(s)
+        return int(f) if (ints and f.denominator == 1) else float(f)
     k = case["kind"]
+    if decoy:           # same class, different numbers: mirrored layout (used to poison class-level caches)
+        case = dict(case)
+        if case.get("rows"):
+            case["rows"] = [r[::-1] for r in case["rows"]][::-1]
     if k == "gridworld":
         from msdm.domains.gridworld.mdp import GridWorld
-        tiles = case["rows"] if case.get("tile_as", "list") == "list" else "\n".join(case["rows"])
-        kw = dict(absorbing_features=tuple(case["absorbing_features"]),
-                  wall_features=tuple(case["wall_features"]),
-                  initial_features=tuple(case["initial_features"]),
+        ta = case.get("tile_as", "list")
+        tiles = {"list": list(case["rows"]), "tuple": tuple(case["rows"]), "str": "\n".join(case["rows"]),
+                 "str_padded": "\n" + "\n".join(case["rows"]) + "\n"}[ta]
+        ff = case.get("feat_form", "tuple")
+        kw = dict(absorbing_features=feats_form(case["absorbing_features"], ff),
+                  wall_features=feats_form(case["wall_features"], ff),
+                  initial_features=feats_form(case["initial_features"], ff),
                   step_cost=fl(case["step_cost"]), success_prob=fl(case["success_prob"]),
                   discount_rate=fl(case["discount_rate"]))
         if case["feature_rewards"] is not None:
-            kw["feature_rewards"] = {f: fl(r) for f, r in case["feature_rewards"].items()}
+            fr = {f: fl(r) for f, r in case["feature_rewards"].items()}
+            kw["feature_rewards"] = list(fr.items()) if case.get("frew_form") == "pairs" else fr
         m = GridWorld(tiles, **kw)
         return m, (lambda s: [s['x'], s['y']]), (lambda a: [a['dx'], a['dy']]), None
     if k == "windy":
@@ -48,7 +78,10 @@ def build(case):
                   wind_probability=fl(case["wind_probability"]), discount_rate=fl(case["discount_rate"]))
         if case["feature_rewards"] is not None:
             kw["feature_rewards"] = {f: fl(r) for f, r in case["feature_rewards"].items()}
-        m = WindyGridWorld("\n".join(case["rows"]), **kw)
+        for key in ("start_features", "goal_features", "wall_features"):
+            if case.get(key) is not None:
+                kw[key] = case[key]
+        m = WindyGridWorld(pad_grid(case["rows"], case.get("pad")), **kw)
         return m, (lambda s: [s.x, s.y]), (lambda a: [a.dx, a.dy]), None
     if k == "cliff":
         from msdm.domains.cliffwalking import CliffWalking
@@ -68,7 +101,7 @@ def build(case):
                   step_cost=fl(case["step_cost"]), heaven_reward=fl(case["heaven_reward"]),
                   hell_reward=fl(case["hell_reward"]))
         if case["rows"] is not None:
-            kw["grid"] = "\n".join(case["rows"])
+            kw["grid"] = pad_grid(case["rows"], case.get("pad"))
         m = HeavenOrHell(**kw)
         return (m, (lambda s: [s.x, s.y, s.heaven, s.hell]), (lambda a: [a.dx, a.dy, bool(a.read)]),
                 (lambda o: [o.x, o.y, o.heaven]))
@@ -78,6 +111,13 @@ def build(case):
 def one(case, pl):
     import numpy as np
     res = {}
+    if case.get("decoy"):
+        try:
+            dm = build(case, decoy=True)[0]
+            dm.transition_matrix, dm.reward_matrix, dm.initial_state_vec
+        except BaseException as e:
+            if isinstance(e, (KeyboardInterrupt, SystemExit)):
+                raise
     try:
         m, es, ea, eo = build(case)
     except BaseException as e:
@@ -190,6 +230,24 @@ def one(case, pl):
             stage_error["plan"] = r["error"]
         else:
             res["plan"] = r
+    # --- object reuse: the same object asked again after its arrays were built and it was planned on
+    def f_requery():
+        for s, row in zip(sl, rows):
+            if "error" in row:
+                continue
+            acts = list(m.actions(s))
+            if [ea(a) for a in acts] != row["actions"] or bool(m.is_absorbing(s)) != row["abs"]:
+                return False
+            for a, ent in zip(acts, row["next"]):
+                d = m.next_state_dist(s, a)
+                again = [[es(ns), num(p), num(m.reward(s, a, ns)) if p > 0 else None] for ns, p in d.items()]
+                if again != ent:
+                    return False
+        if "init" in res and [[es(s), num(p)] for s, p in m.initial_state_dist().items()] != res["init"]:
+            return False
+        return [es(s) for s in m.state_list] == res["state_list"]
+    r = guarded(f_requery)
+    res["requery_same"] = r if isinstance(r, bool) else r["error"]
     return res
 
 
